@@ -72,7 +72,11 @@ type vkShape struct {
 func vkShapes() []vkShape {
 	return []vkShape{
 		{"header-only", func() *dns.Msg { return new(dns.Msg) }},
-		{"q1", func() *dns.Msg { m := new(dns.Msg); m.Question = []dns.Question{vkQ("example.org.", dns.TypeA)}; return m }},
+		{"q1", func() *dns.Msg {
+			m := new(dns.Msg)
+			m.Question = []dns.Question{vkQ("example.org.", dns.TypeA)}
+			return m
+		}},
 		{"q2", func() *dns.Msg {
 			m := new(dns.Msg)
 			m.Question = []dns.Question{vkQ("example.org.", dns.TypeA), vkQ("a.example.org.", dns.TypeAAAA)}
@@ -154,10 +158,7 @@ func vkGrammar(r *vkRun, thorough bool) {
 func vkGrammarRecords(r *vkRun, thorough bool) {
 	types := vkTypes()
 	skipped := 0
-	owners := []string{"sub", "apex", "root", "n255"}
-	if thorough {
-		owners = []string{"sub", "apex", "root", "n255", "l63", "mixed", "esc", "label64"}
-	}
+	owners := []string{"sub", "apex", "root", "n255", "l63", "mixed", "esc", "label64"}
 	contexts := []string{"alone", "with-q", "after-a", "twice", "both-fillings", "rdata-owner-ns"}
 	for _, t := range types {
 		if _, ok := vkRecord(t, 1, "a.example.org."); !ok {
@@ -173,9 +174,6 @@ func vkGrammarRecords(r *vkRun, thorough bool) {
 								return
 							}
 							t, variant, oid, sec, ctx, comp := t, variant, oid, sec, ctx, comp
-							if !thorough && oid != "sub" && (ctx != "with-q" || sec == 1) {
-								continue
-							}
 							key := fmt.Sprintf("rr|%s(%d)|fill%d|own-%s|sec%d|%s|c%v", dns.TypeToString[t], t, variant, oid, sec, ctx, comp)
 							r.do(key, func() *dns.Msg {
 								owner := vkName(oid)
@@ -218,6 +216,70 @@ func vkGrammarRecords(r *vkRun, thorough bool) {
 			}
 		}
 	}
+	// ordered pairs of types: later records compress against names the earlier ones wrote
+	for _, t1 := range types {
+		for _, t2 := range types {
+			for _, fills := range [][2]int{{1, 1}, {1, 2}, {2, 1}, {2, 2}} {
+				for _, comp := range []bool{true, false} {
+					if r.stop() {
+						return
+					}
+					t1, t2, fills, comp := t1, t2, fills, comp
+					r.do(fmt.Sprintf("rrpair|%d|%d|f%d%d|c%v", t1, t2, fills[0], fills[1], comp), func() *dns.Msg {
+						a, _ := vkRecord(t1, fills[0], "host.example.org.")
+						b, _ := vkRecord(t2, fills[1], "Other.Example.NET.")
+						m := new(dns.Msg)
+						m.Id, m.Response, m.Compress = 8, true, comp
+						m.Question = []dns.Question{vkQ("example.org.", t1)}
+						m.Answer, m.Ns, m.Extra = []dns.RR{a, b}, []dns.RR{b}, []dns.RR{a, vkOPT(0x8000)}
+						return m
+					})
+				}
+			}
+		}
+	}
+	// ordered triples, one per section; quick: types that carry domain names
+	tripleTypes := types
+	if !thorough {
+		tripleTypes = nil
+		for _, t := range types {
+			if vkHasDomainName(t) {
+				tripleTypes = append(tripleTypes, t)
+			}
+		}
+	}
+	tripleFills := [][3]int{{1, 2, 1}, {2, 1, 2}}
+	if thorough {
+		tripleFills = [][3]int{{1, 2, 1}, {2, 1, 2}, {1, 1, 2}, {2, 2, 1}}
+	}
+	for _, t1 := range tripleTypes {
+		for _, t2 := range tripleTypes {
+			for _, t3 := range tripleTypes {
+				for _, f := range tripleFills {
+					for _, comp := range []bool{true, false} {
+						if r.stop() {
+							return
+						}
+						if !comp && f[0] == 2 {
+							continue
+						}
+						t1, t2, t3, f, comp := t1, t2, t3, f, comp
+						r.do(fmt.Sprintf("rrtriple|%d|%d|%d|f%d%d%d|c%v", t1, t2, t3, f[0], f[1], f[2], comp), func() *dns.Msg {
+							a, _ := vkRecord(t1, f[0], "host.example.org.")
+							b, _ := vkRecord(t2, f[1], "a.example.org.")
+							c, _ := vkRecord(t3, f[2], "Other.Example.NET.")
+							m := new(dns.Msg)
+							m.Id, m.Response, m.Compress = 8, true, comp
+							m.Question = []dns.Question{vkQ("a.example.org.", t2)}
+							m.Answer, m.Ns, m.Extra = []dns.RR{a}, []dns.RR{b}, []dns.RR{c}
+							return m
+						})
+					}
+				}
+			}
+		}
+	}
+	r.c.Note(fmt.Sprintf("record triples over %d types", len(tripleTypes)))
 	// canned presentation-format records
 	for i, line := range vkCanned {
 		for sec := 0; sec < 3; sec++ {
@@ -497,20 +559,29 @@ func vkGrammarSVCB(r *vkRun, thorough bool) {
 
 // G5 names: question x owner x rdata name.
 func vkGrammarNames(r *vkRun, thorough bool) {
-	for _, qn := range vkNames {
-		for _, on := range vkNames {
-			for _, rn := range vkNames {
-				for _, comp := range []bool{true, false} {
-					qn, on, rn, comp := qn, on, rn, comp
-					r.do(fmt.Sprintf("names|q-%s|o-%s|r-%s|c%v", qn.id, on.id, rn.id, comp), func() *dns.Msg {
-						m := new(dns.Msg)
-						m.Id, m.Response, m.Compress = 17, true, comp
-						m.Question = []dns.Question{vkQ(qn.name, dns.TypeNS)}
-						m.Answer = []dns.RR{vkNS(on.name, rn.name)}
-						m.Ns = []dns.RR{&dns.SRV{Hdr: dns.RR_Header{Name: rn.name, Rrtype: dns.TypeSRV, Class: dns.ClassINET, Ttl: 1}, Port: 53, Target: on.name}}
-						m.Extra = []dns.RR{vkA(rn.name, 1)}
-						return m
-					})
+	q2s := append([]struct{ id, name string }{{"none", ""}}, vkNames...)
+	for _, q2 := range q2s {
+		for _, qn := range vkNames {
+			for _, on := range vkNames {
+				for _, rn := range vkNames {
+					for _, comp := range []bool{true, false} {
+						if r.stop() {
+							return
+						}
+						q2, qn, on, rn, comp := q2, qn, on, rn, comp
+						r.do(fmt.Sprintf("names|q2-%s|q-%s|o-%s|r-%s|c%v", q2.id, qn.id, on.id, rn.id, comp), func() *dns.Msg {
+							m := new(dns.Msg)
+							m.Id, m.Response, m.Compress = 17, true, comp
+							m.Question = []dns.Question{vkQ(qn.name, dns.TypeNS)}
+							if q2.id != "none" {
+								m.Question = append(m.Question, vkQ(q2.name, dns.TypeA))
+							}
+							m.Answer = []dns.RR{vkNS(on.name, rn.name)}
+							m.Ns = []dns.RR{&dns.SRV{Hdr: dns.RR_Header{Name: rn.name, Rrtype: dns.TypeSRV, Class: dns.ClassINET, Ttl: 1}, Port: 53, Target: on.name}}
+							m.Extra = []dns.RR{vkA(rn.name, 1)}
+							return m
+						})
+					}
 				}
 			}
 		}
